@@ -239,7 +239,7 @@ func (t *Taint) Run() {
 	fns := t.p.RepoFuncs()
 	// include anonymous functions
 	for _, f := range fns {
-		t.sum[f] = &fnSummary{fn: f, paramOut: make([]lbl, len(f.Params)), ret: make([]lbl, f.Signature.Results().Len()), retAlias: fillInts(f.Signature.Results().Len(), -1)}
+		t.sum[f] = &fnSummary{fn: f, paramOut: make([]lbl, len(f.Params)+len(f.FreeVars)), ret: make([]lbl, f.Signature.Results().Len()), retAlias: fillInts(f.Signature.Results().Len(), -1)}
 	}
 	for iter := 0; iter < 50; iter++ {
 		t.changed = false
@@ -365,8 +365,16 @@ func (t *Taint) analyze(fn *ssa.Function) {
 			s.val[p] = paramBit(i)
 		}
 	}
-	for _, fv := range fn.FreeVars {
-		s.mem[fv] = lblSRC // closures over secrets are not used in this repository; be conservative
+	// a captured variable is a pointer to the parent's cell. When every use of the closure value is a direct call in the
+	// parent, the cell is one more (pointer) argument of that call: pseudo-parameter len(Params)+j, bound at the call to the
+	// MakeClosure's binding. Any other use (stored, passed on, deferred, go) keeps the conservative answer "secret".
+	direct := closureCalledDirectlyOnly(fn)
+	for j, fv := range fn.FreeVars {
+		if direct {
+			s.mem[fv] = paramBit(len(fn.Params) + j)
+		} else {
+			s.mem[fv] = lblSRC
+		}
 	}
 	var sinks []tSink
 	var calls []tCall
@@ -387,6 +395,16 @@ func (t *Taint) analyze(fn *ssa.Function) {
 	for i, p := range fn.Params {
 		if hasContent(p.Type()) {
 			out := s.memOf(s.root(p)) &^ paramBit(i)
+			if sum.paramOut[i]|out != sum.paramOut[i] {
+				sum.paramOut[i] |= out
+				t.changed = true
+			}
+		}
+	}
+	for j, fv := range fn.FreeVars {
+		i := len(fn.Params) + j
+		if i < len(sum.paramOut) {
+			out := s.memOf(s.root(fv)) &^ paramBit(i)
 			if sum.paramOut[i]|out != sum.paramOut[i] {
 				sum.paramOut[i] |= out
 				t.changed = true
@@ -745,6 +763,9 @@ func (t *Taint) call(s *fnState, in ssa.Instruction, c *ssa.CallCommon, sinks *[
 		return
 	}
 	callee := c.StaticCallee()
+	if mc, ok := c.Value.(*ssa.MakeClosure); ok && callee != nil && mc.Fn == ssa.Value(callee) && closureCalledDirectlyOnly(callee) {
+		args = append(append([]ssa.Value(nil), args...), mc.Bindings...)
+	}
 	if callee == nil && c.IsInvoke() {
 		if impls := t.implementations(c); len(impls) > 0 {
 			for _, im := range impls {
@@ -886,7 +907,7 @@ func (t *Taint) applyRepoSummary(s *fnState, in ssa.Instruction, callee *ssa.Fun
 			out |= lblSRC
 		}
 		for i := range args {
-			if i < len(callee.Params) && m&paramBit(i) != 0 {
+			if i < len(callee.Params)+len(callee.FreeVars) && m&paramBit(i) != 0 {
 				out |= s.lab(args[i])
 			}
 		}
@@ -1480,4 +1501,43 @@ func storesLimbOr(fn *ssa.Function) bool {
 		return false
 	}
 	return true
+}
+
+// closureCalledDirectlyOnly: fn is an anonymous function whose closure values are used for nothing but direct calls
+// (`f := func(...){...}; f(x)`) in the function that creates them.
+func closureCalledDirectlyOnly(fn *ssa.Function) bool {
+	par := fn.Parent()
+	if par == nil || len(fn.FreeVars) == 0 {
+		return false
+	}
+	found := false
+	for _, b := range par.Blocks {
+		for _, in := range b.Instrs {
+			mc, ok := in.(*ssa.MakeClosure)
+			if !ok || mc.Fn != ssa.Value(fn) {
+				continue
+			}
+			found = true
+			if mc.Referrers() == nil {
+				return false
+			}
+			for _, u := range *mc.Referrers() {
+				switch x := u.(type) {
+				case *ssa.DebugRef:
+				case *ssa.Call:
+					if x.Call.Value != ssa.Value(mc) {
+						return false
+					}
+					for _, a := range x.Call.Args {
+						if a == ssa.Value(mc) {
+							return false
+						}
+					}
+				default:
+					return false
+				}
+			}
+		}
+	}
+	return found
 }
